@@ -9,6 +9,11 @@ Lemma tbl_ws_close :
   sv_ws_eof_locals = [str "close"] /\ sv_ws_eof_top_only = true /\ sv_ws_eof_unrecognised = 0.
 Proof. vm_compute. repeat split. Qed.
 
+(* session.go Serve: the peer's close is recognised by identity with io.EOF, in
+   the one switch of the loop (nil / io.EOF / default) *)
+Lemma tbl_serve_eof : sv_serve_eof_identity = true /\ sv_serve_switches = 1 /\ sv_serve_clauses = 3.
+Proof. vm_compute. repeat split. Qed.
+
 Lemma ws_ends_nested d x : d <> 0%N -> ws_ends d x = false.
 Proof.
   intro H. unfold ws_ends. destruct tbl_ws_close as [_ [-> _]]. cbn [negb orb].
@@ -319,7 +324,13 @@ Proof.
     assert (Hw : is_iq n && needs_resp typ && negb (w_wrote (enc_all id hw w0)) = wanted n a' hw) by reflexivity.
     rewrite Hw.
     destruct ((if wanted n a' hw && negb (is_nil from) then c_jp c from else Some [])) as [j|] eqn:Eto.
-    + assert (Hf : length (skipn k pre) < fuel) by (pose proof (skipn_len k pre); lia).
+    + destruct (c_oclosed c && (wanted n a' hw || negb (is_nil (w_out (enc_all id hw w0))))) eqn:Eoc.
+      { eexists. eexists. split; [reflexivity|]. unfold inv_spec.
+        cbn [v_name v_attrs v_seen v_hw v_auto v_ret]. fold a'. fold id. rewrite Hout.
+        split; [reflexivity|]. split; [reflexivity|]. split; [exists k; reflexivity|].
+        split; [intro H; discriminate|]. split; [discriminate|]. split; [intros _; discriminate|].
+        intros _; reflexivity. }
+      assert (Hf : length (skipn k pre) < fuel) by (pose proof (skipn_len k pre); lia).
       destruct (drain_spec ws pd fuel (skipn k pre) e s2 R2 Hf) as [s3 [Ed R3]].
       rewrite Ed. eexists. eexists. split; [reflexivity|]. unfold inv_spec.
       cbn [v_name v_attrs v_seen v_hw v_auto v_ret]. fold a'. fold id. fold from. rewrite Hout.
@@ -757,12 +768,12 @@ Proof. intro H. unfold serve_all. apply serve_top; [exact H|lia]. Qed.
 
 (* the received stream error is Serve's return value *)
 Lemma c08_stream_error_returned c hf cond a a1 n1 n2 rest :
-  bytes_eqb cond s_text = false -> cond <> [] ->
+  bytes_eqb cond s_text = false ->
   let toks := TStart (mkname sv_ns_stream s_error) a
               :: TStart (mkname sv_ns_stream_error cond) a1 :: TEnd n1 :: TEnd n2 :: rest in
   s_invs (serve_all c hf toks) = [] /\ s_ret (serve_all c hf toks) = Some (EStreamErr cond).
 Proof.
-  intros Ht Hne toks.
+  intros Ht toks.
   assert (H : top_err (c_ws c) toks = Some (EStreamErr cond)).
   { unfold toks. cbn [top_err clean nspace].
     replace (bytes_eqb sv_ns_stream sv_ns_stream) with true by reflexivity. cbn [negb andb].
@@ -771,7 +782,7 @@ Proof.
     replace (bytes_eqb s_error s_error) with true by reflexivity.
     rewrite (se_scan_simple cond a1 n1 n2 rest Ht). reflexivity. }
   destruct (c08_top c hf toks _ H) as [E1 E2]. split; [exact E1|]. rewrite E2.
-  cbn [ret_of send_error]. destruct cond; [congruence|reflexivity].
+  reflexivity.
 Qed.
 
 Lemma c08_close c hf n rest :
@@ -817,6 +828,108 @@ Proof.
   intro H. split.
   - cbn [clean]. rewrite H. apply andb_false_r.
   - unfold dirty_err. rewrite H. reflexivity.
+Qed.
+
+(* a stream error without a defined condition is returned as such too *)
+Lemma c08_stream_error_no_condition c hf a n2 rest :
+  let toks := TStart (mkname sv_ns_stream s_error) a :: TEnd n2 :: rest in
+  s_invs (serve_all c hf toks) = [] /\ s_ret (serve_all c hf toks) = Some (EStreamErr []).
+Proof.
+  intro toks.
+  assert (H : top_err (c_ws c) toks = Some (EStreamErr [])).
+  { unfold toks. cbn [top_err clean nspace].
+    replace (bytes_eqb sv_ns_stream sv_ns_stream) with true by reflexivity. cbn [negb andb].
+    unfold top_dirty_err, dirty_err. cbn [nspace nlocal].
+    replace (bytes_eqb sv_ns_stream sv_ns_framing) with false by reflexivity. rewrite !andb_false_r. cbn [andb].
+    replace (bytes_eqb s_error s_error) with true by reflexivity. reflexivity. }
+  destruct (c08_top c hf toks _ H) as [E1 E2]. split; [exact E1|]. rewrite E2. reflexivity.
+Qed.
+
+(* ---- Serve returns nil exactly when the peer closed the stream ---- *)
+
+Section Nil.
+Variable c : cfg.
+Notation ws := (c_ws c).
+
+(* the script leads to the peer's close: keep-alives and complete clean elements, then the closing tag *)
+Inductive reaches_close : list token -> Prop :=
+| RC_end l : top_err ws l = Some EEOF -> reaches_close l
+| RC_ws b l : is_ws b = true -> reaches_close l -> reaches_close (TChar b :: l)
+| RC_elem n a l pre rest : clean ws (TStart n a) = true -> scan ws 0 l = (pre, SEComplete rest) ->
+    reaches_close rest -> reaches_close (TStart n a :: l).
+
+Lemma ret_of_none e : ret_of e = None -> e = EEOF.
+Proof. destruct e; cbn; intro H; try discriminate; reflexivity. Qed.
+
+Lemma follows_nil l invs : follows c l invs None ->
+  reaches_close l /\ Forall (fun v => v_ret v = None) invs.
+Proof.
+  intro H. remember (@None err) as r eqn:Hr. revert Hr.
+  induction H as [l e Ht|b l invs r Hb Hf IH|n a l pre e v p' er Hc Hs Hv Her|n a l pre rest v invs r Hc Hs Hv Her Hf IH]; intro Hr.
+  - apply ret_of_none in Hr. subst e. split; [apply RC_end; exact Ht|constructor].
+  - subst r. destruct (IH eq_refl) as [I1 I2]. split; [apply RC_ws; assumption|exact I2].
+  - discriminate.
+  - subst r. destruct (IH eq_refl) as [I1 I2]. split; [eapply RC_elem; eauto|constructor; auto].
+Qed.
+
+Lemma follows_nil_conv l invs r : follows c l invs r ->
+  reaches_close l -> Forall (fun v => v_ret v = None) invs -> r = None.
+Proof.
+  induction 1 as [l e Ht|b l invs r Hb Hf IH|n a l pre e v p' er Hc Hs Hv Her|n a l pre rest v invs r Hc Hs Hv Her Hf IH];
+    intros Hrc Hall.
+  - inversion Hrc as [l0 Ht0|b l0 Hb Hr0|n a l0 pre rest Hc Hs Hr0]; subst.
+    + rewrite Ht in Ht0. inversion Ht0; subst. reflexivity.
+    + cbn [top_err] in Ht. rewrite Hb in Ht. discriminate.
+    + cbn [top_err] in Ht. rewrite Hc in Ht. discriminate.
+  - inversion Hrc as [l0 Ht0|b0 l0 Hb0 Hr0|n a l0 pre rest Hc Hs Hr0]; subst.
+    + cbn [top_err] in Ht0. rewrite Hb in Ht0. discriminate.
+    + apply IH; assumption.
+  - inversion Hall as [|x y Hx Hy]; subst. congruence.
+  - inversion Hall as [|x y Hx Hy]; subst.
+    inversion Hrc as [l0 Ht0|b0 l0 Hb0 Hr0|n0 a0 l0 pre0 rest0 Hc0 Hs0 Hr0]; subst.
+    + cbn [top_err] in Ht0. rewrite Hc in Ht0. discriminate.
+    + rewrite Hs in Hs0. inversion Hs0; subst. apply IH; assumption.
+Qed.
+
+(* what reads as the peer's close between elements: </stream:stream>, or on a
+   WebSocket stream a framing element whose name ends the input (<close/>) *)
+Lemma top_err_eof l : top_err ws l = Some EEOF ->
+  (exists n r, l = TEnd n :: r /\ bytes_eqb (nspace n) sv_ns_stream = true /\ bytes_eqb (nlocal n) s_stream = true) \/
+  (exists n a r, l = TStart n a :: r /\ ws = true /\ bytes_eqb (nspace n) sv_ns_framing = true /\
+                 in_list (nlocal n) sv_ws_eof_locals = true).
+Proof.
+  destruct l as [|t r]; cbn [top_err]; [discriminate|].
+  destruct t as [n a|n|b|k b].
+  - destruct (clean ws (TStart n a)); [discriminate|]. unfold top_dirty_err.
+    destruct (ws && bytes_eqb (nspace n) sv_ns_framing && in_list (nlocal n) sv_ws_eof_locals) eqn:E.
+    + intros _. right. apply andb_true_iff in E. destruct E as [E E3]. apply andb_true_iff in E. destruct E as [E1 E2].
+      exists n, a, r. repeat split; assumption.
+    + intro H. inversion H as [H1]. destruct (dirty_eof_is_end c (TStart n a) r H1) as [m Hm]. discriminate.
+  - destruct (clean ws (TEnd n)) eqn:Hc; [discriminate|]. cbn [clean] in Hc. apply negb_false_iff in Hc.
+    unfold dirty_err. destruct (bytes_eqb (nlocal n) s_stream) eqn:E; [|discriminate].
+    intros _. left. exists n, r. repeat split; assumption.
+  - destruct (is_ws b); discriminate.
+  - intro H. inversion H as [H1]. destruct (dirty_eof_is_end c (TMisc k b) r H1) as [m Hm]. discriminate.
+Qed.
+
+End Nil.
+
+Lemma c08_nil_iff_close c hf toks base : ends_match base toks = true ->
+  (s_ret (serve_all c hf toks) = None <->
+   reaches_close c toks /\ Forall (fun v => v_ret v = None) (s_invs (serve_all c hf toks))).
+Proof.
+  intro Hm. pose proof (c08_serve_follows c hf toks base Hm) as Hf. split.
+  - intro Hr. rewrite Hr in Hf. apply (follows_nil c toks _ Hf).
+  - intros [H1 H2]. apply (follows_nil_conv c toks _ _ Hf H1 H2).
+Qed.
+
+(* a handler that returns an error wrapping io.EOF: the invocation fails with that error *)
+Lemma c08_wrapped_eof c fuel hf pd n a l :
+  clean (c_ws c) (TStart n a) = true -> length l < fuel -> (forall a', hf n a' = HRet (Some EWrapEOF)) ->
+  exists v p', his c fuel hf (mkp (TStart n a :: l) pd false) = (HRInv v, p') /\ v_ret v = Some EWrapEOF.
+Proof.
+  intros Hc Hl Hh. unfold his. rewrite (i_token_start (c_ws c) pd n a l Hc). cbv beta iota.
+  rewrite Hh. cbn [run_h finish_inv]. eexists. eexists. split; reflexivity.
 Qed.
 
 Lemma c08_scan_clean ws l c0 pre e : scan ws c0 l = (pre, e) -> Forall (fun t => clean ws t = true) pre.
